@@ -12,6 +12,8 @@ mod behaviour;
 mod manager;
 mod messages;
 pub mod test_helpers;
+#[cfg(feature = "verif")]
+pub mod verif;
 
 pub use behaviour::{Behaviour, PartitionBehaviourEvent};
 pub use manager::TopologyManager;
